@@ -152,6 +152,10 @@ _FIXED = [
     # a role with a super-property field of its own (rright) next to the super-properties on its role taker
     ("D", [(0, "-"), (0, "-"), (0, "-"), (0, "-"), (1, "-"), (1, "-"), (2, 0), (2, 1)],
      ["(set 9 6 4)", "(add 13 7 5)", "(add 2 0 4)", "(add 8 5 6)"]),
+    # inverse fields next to fields of a super-property of the inverse (both name orders), incl. a role target whose
+    # inverse field lives on the role taker
+    ("D", [(0, "-"), (0, "-"), (0, "-"), (0, "-"), (1, "-"), (1, "-"), (2, 0), (2, 1)],
+     ["(add 14 0 4)", "(add 16 5 1)", "(add 16 4 6)", "(add 18 7 5)"]),
 ]
 
 
@@ -168,7 +172,7 @@ def generate(rng, tier, n):
         objs = _world(rng, tag)
         # favour the transitive fields and the role: that is where order could matter
         trans_fields = [f for f, (c, name) in enumerate(d["fields"])
-                        if name in ("sub_organization_of", "near", "anc", "parent", "desc", "head_of", "rbottom", "owns", "rright")]
+                        if name in ("sub_organization_of", "near", "anc", "parent", "desc", "head_of", "rbottom", "owns", "rright", "holds", "held_by")]
         ops = _ops(rng, d, objs, rng.randint(1, maxlen), trans_fields)
         if not ops:
             continue
